@@ -184,7 +184,7 @@ func (p *parser) parseBool(n *yaml.Node) *Bool {
 	}
 
 	return &Bool{
-		Value: n.Value == "true",
+		Value: strings.EqualFold(n.Value, "true"), // True and TRUE are also boolean values in YAML
 		Pos:   posAt(n),
 	}
 }
